@@ -5,6 +5,7 @@ import (
 	"fmt"
 	"reflect"
 	"sync"
+	"sync/atomic"
 	"testing"
 
 	"github.com/bluenviron/gomavlib/v3/pkg/message"
@@ -195,6 +196,10 @@ func (e *c04env) roundTrip(r *vh.RNG, mi *msgInfo, mode vh.Mode) {
 					"decode(encode(value)) is not the canonical form of value (field "+diff+")",
 					map[string]interface{}{"case": wit(), "got": fmt.Sprintf("%+v", got), "want": fmt.Sprintf("%+v", canon.Interface())})
 			}
+			// the encoded payload is the caller's: it overwrites it (a buffer it reuses); no later encoding may be affected
+			for i := range raw.Payload {
+				raw.Payload[i] = 0x2A
+			}
 		})
 	}
 	// truncation / extension invariance in v2
@@ -376,6 +381,19 @@ func TestC04(t *testing.T) {
 				L := 1 + r.Intn(mi.Layout.SizeExt/2+1) // short payloads: room for "extension" into the neighbour
 				backing := make([]byte, slots*L+mi.Layout.SizeExt)
 				var wg2 sync.WaitGroup
+				// the rest of the buffer behind the last payload belongs to a goroutine that keeps flipping it between all-zero and
+				// all-ones (the next datagram being received into the same buffer): never part of anybody's payload
+				var stopFlip int32
+				flipDone := make(chan struct{})
+				go func() {
+					defer close(flipDone)
+					tail := backing[slots*L:]
+					for v := byte(0); atomic.LoadInt32(&stopFlip) == 0; v = ^v {
+						for j := range tail {
+							tail[j] = v
+						}
+					}
+				}()
 				for g := 0; g < slots; g++ {
 					wg2.Add(1)
 					gr := r.Fork()
@@ -383,8 +401,12 @@ func TestC04(t *testing.T) {
 					go func(g int) {
 						defer wg2.Done()
 						for i := 0; i < vh.Pick(300, 3000); i++ {
+							zero := g == slots-1 || gr.Chance(1, 3) // the last payload is followed by the flipping tail only
 							for j := range p {
-								p[j] = byte(1 + gr.Intn(255)) // own bytes only, non-zero
+								p[j] = byte(1 + gr.Intn(255)) // own bytes only
+								if zero && j > 0 {
+									p[j] = 0
+								}
 							}
 							mine := append([]byte(nil), p...)
 							got, err := mi.RW.Read(&message.MessageRaw{ID: mi.Msg.GetID(), Payload: p}, true)
@@ -402,6 +424,8 @@ func TestC04(t *testing.T) {
 					}(g)
 				}
 				wg2.Wait()
+				atomic.StoreInt32(&stopFlip, 1)
+				<-flipDone
 				rep.Count("adjacent_payload_decode_types", 1)
 			}
 		}
